@@ -52,6 +52,10 @@ Obligation ==
               p1mass |-> M33(p), lb |-> M33(l), rwg |-> M33(g), rwgsnc |-> M33(s),
               rwgint |-> [k \in 1..3 |-> RwgInt(el, xyz, e, k)],
               rwgp1 |-> M33(r),
+              \* data of the sparse maps of C06: surface curls -e_i/J, normals Cross/J, RWG components l_k (p_m - p_opp(k))/J, divergence 2 l_k/J
+              eopp |-> [i \in 1..3 |-> EdgeOpp(el, xyz, e, i)],
+              cross |-> Cross(el, xyz, e),
+              pdiff |-> [k \in 1..3 |-> [mm \in 1..3 |-> VSub(P(el, xyz, e, mm), P(el, xyz, e, Opp(k)))]],
               c3 |-> [i \in 1..3 |-> [j \in 1..3 |-> [k \in 1..3 |-> C3(i, j, k)]]] ]
 Emit == EmitJson => PrintT("OBL " \o ToJson(Obligation))
 =============================================================================
